@@ -266,6 +266,14 @@ inline Spec gen_spec(Rng& r, const GenOpts& g, int force_dim = 0, int force_qcls
   for (int i = 0; i < na; i++) { std::string k = gen_key(r); if (seen.insert(k).second) s.aux.push_back({k, gen_value(r)}); }
   if (g.aux_quotes) {   // only drawn when asked for, so that the stream of the other users of this generator is unchanged
     for (auto& kv : s.aux) if (r.coin(2, 5)) kv.second = gen_value_q(r, r.below(N_QCLS));
+    if (r.coin(1, 3)) {      // a key next to the reserved / FITS-semantic names: strict prefix, one character more, name not at the start
+      static const char* near[] = {"TYP", "ORDE", "NAXI", "PERIO", "EXTEN", "COMMEN", "SIMPL", "BITPI", "XTYPE", "MYORDER", "ANAXIS1", "APERIOD0", "XEXTEND",
+                                   "XSIMPLE", "XBITPIX", "ACOMMENT", "EXTNAM", "HDUNAM", "EN", "ENDX", "HISTOR", "CONTINU", "HIERARC", "BLANKS", "XTENSIO", "T", "E",
+                                   "0ORDER", "ORDE0", "NAXI1", "PCOUN", "GCOUN", "BSCAL", "BZER"};
+      std::string k = near[r.below(sizeof(near) / sizeof(near[0]))];
+      if (!reserved_or_semantic(k) && seen.insert(k).second)
+        s.aux.insert(s.aux.begin() + r.below(s.aux.size() + 1), {k, r.coin() ? gen_value(r) : gen_value_q(r, r.below(N_QCLS))});
+    }
     if (force_qcls >= 0) {   // one value of a given class at a random position among the keys
       std::string k = "QV" + std::to_string(force_qcls);
       if (seen.insert(k).second) s.aux.insert(s.aux.begin() + r.below(s.aux.size() + 1), {k, gen_value_q(r, force_qcls)});
